@@ -7,6 +7,10 @@ ids = [p["id"] for p in props]
 
 # id -> (technique, level text, level note, design ref)
 CLAIMED = {
+ "C05": ("proptest-generated (data, filter chain, parameters) encoded by independent specification encoders; round-trip oracle; exhaustive enumeration of small code spaces; corruption fuzzing for no-panic",
+         "Generated-input search: data up to 64 KiB through chains of 1-3 filters with per-filter parameters (PNG 10-15 / TIFF 2 predictors, colours 1-4, bpc 1/2/4/8/16, columns 1-64, LZW EarlyChange 0/1 with clear codes, zlib and raw deflate), decoded via enc::decode and via Stream::data on a real stream object; truncation/damage must not panic; exhaustive hex pairs, run-length headers, PNG filter functions and ASCII85 groups (2^24 sample quick, all 2^32 thorough).",
+         "the encoders in harness/src/engine/filters.rs are my reading of ISO 32000-1 7.4; flate2 provides deflate",
+         "DESIGN.md §4 C05"),
  "C07": ("proptest-generated page trees + exhaustive enumeration of all tree shapes up to 7 nodes; reference model (DFS leaf order, nearest-ancestor attributes) as oracle",
          "Generated-input search over ordered page trees (depth to 12, fan-out 0-5, empty intermediate nodes, attributes placed independently on any node, nodes direct or compressed) and all shapes with <=6 (quick) / <=7 (thorough) nodes x 6 attribute patterns. Every index 0..count+2 and u32::MAX, pages(), num_pages(), media/crop/resources origin are compared with the model, cached and uncached.",
          "trees are well-formed by construction; files come from the harness writer",
